@@ -150,6 +150,7 @@ fn main() {
     let args: Vec<String> = std::env::args().collect();
     let mut path = None;
     let mut race = false;
+    let mut exact = false;
     let mut repeat = 1usize;
     let mut i = 1;
     while i < args.len() {
@@ -159,6 +160,8 @@ fn main() {
                 set_cell(args[i].parse().unwrap());
             }
             "--race" => race = true,
+            // every case in its own exact-size heap allocation (for valgrind memcheck / ASan)
+            "--exact" => exact = true,
             "--repeat" => {
                 i += 1;
                 repeat = args[i].parse().unwrap();
@@ -201,6 +204,16 @@ fn main() {
             .collect();
         for h in hs {
             out.write_all(&h.join().unwrap().to_le_bytes()).unwrap();
+        }
+        return;
+    }
+    if exact {
+        for (entry, cfg, cap, r) in &cases {
+            let src = &data[r.clone()];
+            let mut own: Vec<u8> = Vec::with_capacity(src.len());
+            own.extend_from_slice(src);
+            let d = digest(*entry, *cfg, *cap, &own);
+            out.write_all(&d.to_le_bytes()).unwrap();
         }
         return;
     }
